@@ -38,7 +38,7 @@ def handle (op : String) (args : List String) : Option String :=
           let (est, _) ← Pipeline.readTraj rest
           let n := if o.pairsFromReference then P.pairs.steps.length + 1 else P.pairs.steps.length + 1
           some (Pipeline.showRpeRun (Pipeline.rpeRun o P ref est) ++ " | "
-            ++ showRat (Pipeline.minR (Pipeline.selectMargin c P ref est) (Pipeline.pairMargin o P n)))
+            ++ showRat (Pipeline.selectMargin c P ref est) ++ " " ++ showRat (Pipeline.pairMargin o P n))
       | _ => none
   | "relinfo", [name] => do
       let rel ← PoseRelation.ofString? name
